@@ -50,6 +50,18 @@ package common
 
 // ---- paginator_column.go --------------------------------------------------------------------------
 
+// The outer SELECT re-sorts the page (resource.go: ORDER BY dataset.<OrderExpression>): it has to be the order the inner,
+// limited query used, reversed for a reverse cursor, or BuildCursor trims and flips the wrong rows.
+//@ func (o columnPaginator[ResourceType, OptionsType]) OrderExpression() (r string)
+//@   property C21
+//@   requires o.query.Order != nil
+//@   ensures r == sprintf("%s %s", o.fieldName, (o.query.Reverse ? (deref(o.query.Order) + 1) % 2 : deref(o.query.Order)))
+
+//@ func (o OffsetPaginator[ResourceType, OptionsType]) OrderExpression() (r string)
+//@   property C21
+//@   requires o.query.Order != nil
+//@   ensures r == sprintf("%s %s", o.query.Column, deref(o.query.Order))
+
 //@ func (o columnPaginator[ResourceType, OptionsType]) Paginate(sb *bun.SelectQuery) (r *bun.SelectQuery, err error)
 //@   property C21
 //@   requires o.query.Order != nil && sb != nil
